@@ -328,11 +328,14 @@ impl ValueExpr for FunctionCallExpr {
                         )
                         .unwrap()
                     }
-                    LhsValue::Array(mut arr) => {
-                        if !arr.is_empty() {
-                            arr = arr.filter_map_to(return_type, |elem| call(&mut f(elem)));
+                    LhsValue::Array(arr) => {
+                        if arr.is_empty() {
+                            // Nothing to map, but the result is an array of
+                            // the function's return type, not of the input's.
+                            Array::new(return_type)
+                        } else {
+                            arr.filter_map_to(return_type, |elem| call(&mut f(elem)))
                         }
-                        arr
                     }
                     _ => unreachable!(),
                 };
